@@ -88,7 +88,7 @@ class Check:
 
     ABORT_ASPECT = {'obj': 'C06.abort', 'parse': 'C03.abort', 'parse_bytes': 'C03.abort', 'nest': 'C03.abort', 'print': 'C13.abort',
                     'wide': 'C13.abort', 'canon': 'C09.abort', 'uneq': 'C15.abort', 'ser': 'C16.abort', 'de': 'C16.abort', 'sj': 'C18.abort',
-                    'conv': 'C11.abort', 'fragiter': 'C11.abort', 'kind_set': 'C20.abort', 'kind_ops': 'C20.abort', 'kind_iter': 'C20.abort', 'macro': 'C19.abort'}
+                    'conv': 'C11.abort', 'fragiter': 'C11.abort', 'kind_set': 'C20.abort', 'kind_ops': 'C20.abort', 'kind_iter': 'C20.abort', 'access': 'C20.abort', 'macro': 'C19.abort'}
 
     def _isolated_replay(self, files, out, extra_args, chunk=20000):
         """The harness died (a panic inside a destructor aborts the process and cannot be caught).  Replay the
@@ -761,10 +761,17 @@ def c19(ctx):
 
 def c20(ctx):
     r = ctx.mc('kindset', 'MC_KindSet', {}, {}, ['DumpIter', 'DumpSet', 'IterSound'], spec='KSpec', workers=4)
-    ctx.replay([r['out']], ['C20.'], extra_args=['--value-kinds', '1'])
+    leaves = ('{VNull, VBool(TRUE), VBool(FALSE), VNum(<<48>>), VNum(<<45, 49, 46, 53, 101, 51>>), VStr(<<>>), VStr(<<233, 128512>>)}')
+    a = ctx.mc('access_flat', 'MC_Access', {'Keys': '{<<97>>, <<>>}', 'Leaves': leaves}, {'MaxDepth': 1, 'MaxWidth': 3}, ['Dump', 'ExactlyOneKind'],
+               spec='ASpec')
+    a2 = ctx.mc('access_nested', 'MC_Access', {'Keys': '{<<97>>}', 'Leaves': '{VNull, VNum(<<48>>)}'}, {'MaxDepth': 2 if ctx.quick else 3, 'MaxWidth': 2},
+                ['Dump', 'ExactlyOneKind'], spec='ASpec')
+    ctx.replay([r['out'], a['out'], a2['out']], ['C20.'], extra_args=['--value-kinds', '1'])
     ctx.exhaustive = True
     ctx.extra['rule'] = ('the complete finite domain: all 64 sets x 3 construction routes, all 64x64 operand pairs (incl. every '
-                         'set/kind and kind/kind combination), every interleaving of front/back steps incl. one step past exhaustion')
+                         'set/kind and kind/kind combination), every interleaving of next / next_back / nth / nth_back steps incl. one step '
+                         'past exhaustion, the consuming adaptors on every reached iterator; Value::kind / is_kind on every value of depth 1 x width <= 3 '
+                         '(7 leaves of all scalar kinds, 2 keys) and depth <= 2-3 x width 2, together with the whole accessor layer (JsonAccess)')
 
 
 CHECKS = {
